@@ -12,6 +12,12 @@ uninstall of an earlier item shifts the positions of the later ones.
 * `C14_dyn_fix_exact`            — both, from an accepted `fix` request on
 * `C14_dyn_install_not_early / _request / _exact` — the same for an application installation, from the install REQUEST on, for every
                                    dynamic continuation that does not uninstall it
+* `C14_dyn_step_scanCd`, `C14_dyn_node_scan_not_early / _completes_on_time / _exact` — the node scan countdown (a node field) over
+                                   every dynamic trace without a new `os scan` request
+* `C14_dyn_struct_pos`, `dyn_folder_cd_step` — folders keep their POSITION, name, `deleted` flag and countdowns under every structural
+                                   operation; one dynamic step moves a running folder countdown like the base step
+* `C14_dyn_folder_scan_not_early / _completes_on_time / _exact`, `C14_dyn_folder_restore_not_early / _completes_on_time / _exact`
+                                 — folder scan / restore timing BY POSITION over every dynamic trace
 -/
 import PrimaiteModel.Props.C14Dyn
 import PrimaiteModel.Props.C14Life
@@ -303,5 +309,609 @@ example :
     let ops : List DOp := [.swUninstallApi "a", .base .tick, .base (.swSet "web-browser" .compromised)]
     d.n.hasSw s.name = false ∧ dEffTicks d1 ops = 1 ∧ ((d1.run ops).n.swNamed "web-browser").map (·.op) = some .installing ∧
       (((d1.run ops).apply (.base .tick)).n.swNamed "web-browser").map (fun x => (x.op, x.actual)) = some (.running, .good) := by decide
+
+/-! ## node scan timing over every dynamic trace
+
+The node-scan countdown `Node.scanCd` is a field of the node: no structural operation (install, uninstall, folder / file creation,
+copy, database restore, external folder write) touches it, and `tickDb` moves it exactly like a plain timestep. -/
+
+theorem createFolder_scanCd (e : DNode) (G : String) : (e.createFolder G).n.scanCd = e.n.scanCd := by
+  unfold DNode.createFolder; split <;> rfl
+
+theorem addNewFile_scanCd (e : DNode) (F f : String) : (e.addNewFile F f).n.scanCd = e.n.scanCd := by
+  unfold DNode.addNewFile; split
+  · split <;> rfl
+  · rfl
+
+theorem createFile_scanCd (e : DNode) (F f : String) : (e.createFile F f).n.scanCd = e.n.scanCd := by
+  unfold DNode.createFile
+  rw [addNewFile_scanCd]
+  split
+  · rfl
+  · exact createFolder_scanCd _ _
+
+theorem copyFile_scanCd (d : DNode) (sF f dF : String) : (d.copyFile sF f dF).n.scanCd = d.n.scanCd := by
+  unfold DNode.copyFile
+  split
+  · rfl
+  · simp only []
+    split
+    · rfl
+    · exact createFolder_scanCd _ _
+
+theorem dbReplace_scanCd (d : DNode) (F f sF : String) : (d.dbReplace F f sF).n.scanCd = d.n.scanCd := by
+  unfold DNode.dbReplace
+  split
+  · rfl
+  · split
+    · split <;> rfl
+    · split
+      · rfl
+      · split
+        · rfl
+        · exact createFolder_scanCd _ _
+
+theorem dlClear_scanCd (d : DNode) (pre : Bool) : (d.dlClear pre).n.scanCd = d.n.scanCd := by
+  unfold DNode.dlClear; split <;> rfl
+
+theorem dlArrive_scanCd (d : DNode) (h : FsH) : (d.dlArrive h).n.scanCd = d.n.scanCd := by
+  unfold DNode.dlArrive
+  split
+  · rfl
+  · simp only []
+    split
+    · rfl
+    · exact createFolder_scanCd _ _
+
+theorem dbRestore_scanCd (d : DNode) (pre : Bool) (dl : Option FsH) : (d.dbRestore pre dl).n.scanCd = d.n.scanCd := by
+  unfold DNode.dbRestore
+  cases dl with
+  | none => exact dlClear_scanCd d pre
+  | some h => simp only []; rw [dbReplace_scanCd, dlArrive_scanCd, dlClear_scanCd]
+
+theorem tickDb_scanCd (d : DNode) (pre : Bool) (dl : Option FsH) : (d.tickDb pre dl).n.scanCd = d.n.tick.scanCd := by
+  simp only [DNode.tickDb, Node.tick]
+  split
+  · simp only [mapFolders_scanCd, Node.itemPhase, mapSws_scanCd]
+    split
+    · rw [dbRestore_scanCd]; rfl
+    · rfl
+  · rfl
+
+/-- **C14 dyn (one step, node scan countdown).** Every dynamic operation moves `node_scan_countdown` like the base operation it
+amounts to (`DOp.swBase`: itself for a base operation, `tick` for `tickDb`) — or not at all (every structural operation). -/
+theorem C14_dyn_step_scanCd (d : DNode) (op : DOp) :
+    (d.apply op).n.scanCd = match op.swBase with | some b => (d.n.apply b).scanCd | none => d.n.scanCd := by
+  cases op <;> simp only [DOp.swBase, DNode.apply]
+  case appInstallReq s known => split <;> rfl
+  case appUninstallReq nm => split <;> rfl
+  case swUninstallApi nm => rfl
+  case fsCreateFolder F =>
+    split
+    · exact createFolder_scanCd d F
+    · rfl
+  case fsCreateFile F f force =>
+    split
+    · split
+      · rfl
+      · exact createFile_scanCd d F f
+    · rfl
+  case fsCopyFile sF f dF => exact copyFile_scanCd d sF f dF
+  case dbReplace F f sF => exact dbReplace_scanCd d F f sF
+  case folderSet F h => rfl
+  case dbRestore pre dl => exact dbRestore_scanCd d pre dl
+  case tickDb pre dl => exact tickDb_scanCd d pre dl
+
+/-- a new `os scan` request (the only operation that reloads a running node-scan countdown) -/
+def dIsOsScan : DOp → Bool
+  | .base .osScan => true
+  | _ => false
+
+/-- **C14 dyn node scan timing, part 1 (not early), every dynamic trace.** With `c` on the node-scan countdown and no new
+`os scan` request in the trace — installs, uninstalls, folder / file creation, copies, database restores, `tickDb` all allowed —
+the countdown is `c` minus the number of timesteps (plain or `tickDb`) that reached the node's items, while that number is below
+`c`. -/
+theorem C14_dyn_node_scan_not_early (ops : List DOp) : ∀ (d : DNode) (c : Int),
+    d.n.scanCd = c → (∀ op ∈ ops, dIsOsScan op = false) → (dEffTicks d ops : Int) < c →
+    (d.run ops).n.scanCd = c - dEffTicks d ops := by
+  induction ops with
+  | nil => intro d c hc _ _; simpa [dEffTicks, DNode.run] using hc
+  | cons op ops ih =>
+    intro d c hc hq hk
+    simp only [dEffTicks] at hk ⊢
+    simp only [DNode.run]
+    have hq' : ∀ o ∈ ops, dIsOsScan o = false := fun o ho => hq o (List.mem_cons_of_mem _ ho)
+    have hop := hq op List.mem_cons_self
+    have h0 : (0 : Int) ≤ (dEffTicks (d.apply op) ops : Int) := Int.natCast_nonneg _
+    have hstep := C14_dyn_step_scanCd d op
+    cases hb : op.swBase with
+    | none =>
+      rw [hb] at hstep
+      simp only [dEffTick_of_none d op hb, Bool.false_eq_true, if_false, Nat.zero_add] at hk ⊢
+      exact ih (d.apply op) c (hstep.trans hc) hq' hk
+    | some b =>
+      rw [hb] at hstep
+      simp only [] at hstep
+      have hbn : b ≠ .osScan := by
+        intro e
+        subst e
+        cases op <;> simp only [DOp.swBase, reduceCtorEq, Option.some.injEq] at hb
+        case base b' => subst hb; simp [dIsOsScan] at hop
+      rw [dEffTick_of_swBase d op b hb] at hk ⊢
+      have h1 := C14_node_scan_not_early [b] d.n c hc (by intro o ho; simp at ho; subst ho; exact hbn)
+      simp only [effTicks, Node.run, Nat.add_zero] at h1
+      by_cases he : effTick d.n b = true
+      · simp only [he, if_true] at hk ⊢ h1
+        rw [ih (d.apply op) (c - 1) (hstep.trans (h1 (by omega))) hq' (by omega)]
+        omega
+      · have he' : effTick d.n b = false := by simpa using he
+        simp only [he', Bool.false_eq_true, if_false, Nat.zero_add] at hk ⊢ h1
+        have h1' := h1 (by omega)
+        exact ih (d.apply op) c (hstep.trans (by simpa using h1')) hq' hk
+
+/-- **C14 dyn node scan timing, part 2 (on time).** … and at the next timestep that reaches the node's items (`tk`: a plain
+timestep or a `tickDb`) the scan fans out: the countdown stands at 1, `Node.scanFires` holds on the state after the power phase, and
+the timestep returns the countdown to 0. -/
+theorem C14_dyn_node_scan_completes_on_time (ops : List DOp) (d : DNode) (c : Int) (hc : d.n.scanCd = c)
+    (hq : ∀ op ∈ ops, dIsOsScan op = false) (hk : (dEffTicks d ops : Int) + 1 = c) (tk : DOp) (htk : tk.swBase = some .tick)
+    (ht : effTick (d.run ops).n .tick = true) :
+    (d.run ops).n.scanCd = 1 ∧ (d.run ops).n.powerPhase.scanFires = true ∧ ((d.run ops).apply tk).n.scanCd = 0 := by
+  have h1 : (d.run ops).n.scanCd = 1 := by rw [C14_dyn_node_scan_not_early ops d c hc hq (by omega)]; omega
+  have hb := C14_node_scan_completes_on_time [] (d.run ops).n 1 h1 (by simp) (by simp [effTicks]) ht
+  simp only [Node.run] at hb
+  refine ⟨h1, hb.2.1, ?_⟩
+  have hs := C14_dyn_step_scanCd (d.run ops) tk
+  rw [htk] at hs
+  exact hs.trans hb.2.2
+
+/-- **C14 dyn node scan timing (exact).** After an accepted `os scan` request on a powered-on node, for EVERY dynamic continuation
+without a new `os scan` request (installs, uninstalls, folder / file creation, copies, database restores, timesteps with a database
+restore inside are all allowed): while fewer than `max(node_scan_duration, 1)` timesteps have reached the node's items the countdown
+is `max(node_scan_duration, 1)` minus that number (no fan-out yet), and the `max(node_scan_duration, 1)`-th such timestep `tk` (plain
+or `tickDb`) is the one in which the scan fans out (`Node.scanFires` after its power phase) and the countdown returns to 0. -/
+theorem C14_dyn_node_scan_exact (d : DNode) (ops : List DOp) (tk : DOp) (hon : d.n.power = .on)
+    (hq : ∀ op ∈ ops, dIsOsScan op = false) (htk : tk.swBase = some .tick) :
+    let d1 := d.apply (.base .osScan)
+    ((dEffTicks d1 ops : Int) < max d.n.scanDur 1 → (d1.run ops).n.scanCd = max d.n.scanDur 1 - dEffTicks d1 ops) ∧
+    ((dEffTicks d1 ops : Int) + 1 = max d.n.scanDur 1 → effTick (d1.run ops).n .tick = true →
+      (d1.run ops).n.powerPhase.scanFires = true ∧ ((d1.run ops).apply tk).n.scanCd = 0) := by
+  intro d1
+  have h : d1.n.scanCd = max d.n.scanDur 1 := C14_node_scan_request d.n hon
+  refine ⟨fun hlt => C14_dyn_node_scan_not_early ops d1 _ h hq hlt, fun heq ht => ?_⟩
+  have := C14_dyn_node_scan_completes_on_time ops d1 _ h hq heq tk htk ht
+  exact ⟨this.2.1, this.2.2⟩
+
+/-! non-vacuity (node scan): node_scan_duration 2; between the two timesteps an application is installed and a folder is created;
+the second timestep is a `tickDb` -/
+example :
+    let a : Sw := { name := "a", isApp := false, op := .running, actual := .good, visible := .unused, fixDur := 1, fixCd := none,
+                    auxDur := 0, auxCd := none }
+    let d : DNode := { n := { power := .on, startDur := 0, startCd := 0, shutDur := 0, shutCd := 0, resetting := false, scanDur := 2,
+                              scanCd := 0, sws := [a], folders := [] }, defScan := none, defRestore := none }
+    let d1 := d.apply (.base .osScan)
+    let ops : List DOp := [.base .tick, .appInstallReq { name := "c", isApp := true, fixDur := 1, auxDur := 1, h0 := .good } true,
+                           .fsCreateFolder "x"]
+    (∀ op ∈ ops, dIsOsScan op = false) ∧ dEffTicks d1 ops = 1 ∧ (d1.run ops).n.scanCd = 1 ∧
+      (d1.run ops).n.powerPhase.scanFires = true ∧ ((d1.run ops).apply (.tickDb false none)).n.scanCd = 0 := by decide
+
+/-! ## folder scan / folder restore timing over every dynamic trace, BY POSITION
+
+Folders are never removed from `Node.folders` and new ones are APPENDED, so the position `j` of a folder is stable under every
+dynamic operation (unlike software, where an uninstall shifts positions): the base statements `folders[j]? = some G` lift as they
+are. Every structural operation keeps name, `deleted` flag and both countdowns of every existing folder (`Folder.CdSame`). -/
+
+/-- same name, same `deleted` flag, same scan and restore countdowns -/
+def Folder.CdSame (G' G : Folder) : Prop :=
+  G'.name = G.name ∧ G'.deleted = G.deleted ∧ G'.scanCd = G.scanCd ∧ G'.restoreCd = G.restoreCd
+
+/-- position stability: every folder of `n` is, at the same position of `n'`, a folder with the same name / flag / countdowns -/
+def PosOk (n n' : Node) : Prop :=
+  ∀ (j : Nat) (G : Folder), n.folders[j]? = some G → ∃ G', n'.folders[j]? = some G' ∧ G'.CdSame G
+
+theorem PosOk.refl (n : Node) : PosOk n n := fun _ G h => ⟨G, h, rfl, rfl, rfl, rfl⟩
+
+theorem PosOk.of_folders_eq {n n' n'' : Node} (h : PosOk n n') (e : n''.folders = n'.folders) : PosOk n n'' := by
+  intro j G hG; rw [e]; exact h j G hG
+
+theorem PosOk.mapFolders {n n' : Node} (h : PosOk n n') (g : Folder → Folder) (hg : ∀ G, (g G).CdSame G) :
+    PosOk n (n'.mapFolders g) := by
+  intro j G hG
+  obtain ⟨G', h1, a', b', c', e'⟩ := h j G hG
+  obtain ⟨a, b, c, e⟩ := hg G'
+  exact ⟨g G', by rw [mapFolders_folders, List.getElem?_map, h1]; rfl, a.trans a', b.trans b', c.trans c', e.trans e'⟩
+
+theorem PosOk.mapLiveFolder {n n' : Node} (h : PosOk n n') (F : String) (g : Folder → Folder) (hg : ∀ G, (g G).CdSame G) :
+    PosOk n (n'.mapLiveFolder F g) := by
+  apply h.mapFolders
+  intro G
+  split
+  · exact hg G
+  · exact ⟨rfl, rfl, rfl, rfl⟩
+
+theorem PosOk.append {n n' : Node} (h : PosOk n n') (H : Folder) : PosOk n { n' with folders := n'.folders ++ [H] } := by
+  intro j G hG
+  obtain ⟨G', h1, h2⟩ := h j G hG
+  refine ⟨G', ?_, h2⟩
+  have hlt : j < n'.folders.length := (List.getElem?_eq_some_iff.mp h1).1
+  simp only []
+  rw [List.getElem?_append_left hlt]; exact h1
+
+theorem PosOk.addFile {n n' : Node} (h : PosOk n n') (F : String) (x : File) : PosOk n (n'.addFile F x) :=
+  h.mapLiveFolder F _ (fun _ => ⟨rfl, rfl, rfl, rfl⟩)
+
+theorem PosOk.deleteFile {n n' : Node} (h : PosOk n n') (F f : String) :
+    PosOk n (n'.mapLiveFolder F (fun G => G.delLive f)) :=
+  h.mapLiveFolder F _ (fun _ => ⟨rfl, rfl, rfl, rfl⟩)
+
+theorem PosOk.createFolder {n : Node} {d : DNode} (h : PosOk n d.n) (F : String) : PosOk n (d.createFolder F).n := by
+  unfold DNode.createFolder
+  split
+  · exact h.mapLiveFolder F _ (fun _ => ⟨rfl, rfl, rfl, rfl⟩)
+  · exact h.append _
+
+theorem PosOk.addNewFile {n : Node} {d : DNode} (h : PosOk n d.n) (F f : String) : PosOk n (d.addNewFile F f).n := by
+  unfold DNode.addNewFile
+  split
+  · split
+    · exact h
+    · exact h.addFile F _
+  · exact h
+
+theorem PosOk.createFile {n : Node} {d : DNode} (h : PosOk n d.n) (F f : String) : PosOk n (d.createFile F f).n := by
+  unfold DNode.createFile
+  apply PosOk.addNewFile
+  split
+  · exact h
+  · exact h.createFolder F
+
+theorem PosOk.copyFile {n : Node} {d : DNode} (h : PosOk n d.n) (sF f dF : String) : PosOk n (d.copyFile sF f dF).n := by
+  unfold DNode.copyFile
+  split
+  · exact h
+  · simp only []
+    split
+    · exact (h.deleteFile dF f).addFile dF _
+    · exact ((h.createFolder dF).deleteFile dF f).addFile dF _
+
+theorem PosOk.dbReplace {n : Node} {d : DNode} (h : PosOk n d.n) (F f sF : String) : PosOk n (d.dbReplace F f sF).n := by
+  unfold DNode.dbReplace
+  split
+  · exact h
+  · split
+    · split
+      · exact h
+      · exact (h.deleteFile F f).addFile F _
+    · split
+      · exact h
+      · split
+        · exact h
+        · exact (h.createFolder F).addFile F _
+
+theorem PosOk.dbRestore {n : Node} {d : DNode} (h : PosOk n d.n) (pre : Bool) (dl : Option FsH) :
+    PosOk n (d.dbRestore pre dl).n := by
+  have h1 : PosOk n (d.dlClear pre).n := by
+    unfold DNode.dlClear
+    split
+    · exact h.deleteFile dlFolder dbFile
+    · exact h
+  unfold DNode.dbRestore
+  cases dl with
+  | none => exact h1
+  | some hh =>
+    simp only []
+    apply PosOk.dbReplace
+    unfold DNode.dlArrive
+    split
+    · exact h1
+    · simp only []
+      split
+      · exact h1.addFile dlFolder _
+      · exact (h1.createFolder dlFolder).addFile dlFolder _
+
+/-- **C14 dyn (position stability).** After a structural operation (install / uninstall / create / copy / database restore /
+external folder write) every folder is still at its position, with the same name, `deleted` flag and countdowns. -/
+theorem C14_dyn_struct_pos (d : DNode) (op : DOp) (hs : op.swBase = none) : PosOk d.n (d.apply op).n := by
+  have h0 := PosOk.refl d.n
+  cases op <;> simp only [DOp.swBase, reduceCtorEq] at hs <;> simp only [DNode.apply]
+  case appInstallReq s known => split <;> exact h0
+  case appUninstallReq name => split <;> exact h0
+  case swInstallApi s => exact h0
+  case swUninstallApi name => exact h0
+  case fsCreateFolder F =>
+    split
+    · exact h0.createFolder F
+    · exact h0
+  case fsCreateFile F f force =>
+    split
+    · split
+      · exact h0
+      · exact h0.createFile F f
+    · exact h0
+  case fsCopyFile sF f dF => exact h0.copyFile sF f dF
+  case dbReplace F f sF => exact h0.dbReplace F f sF
+  case folderSet F hh =>
+    unfold Node.mapFolder
+    apply h0.mapFolders
+    intro G
+    split
+    · exact ⟨rfl, rfl, rfl, rfl⟩
+    · exact ⟨rfl, rfl, rfl, rfl⟩
+  case dbRestore pre dl => exact h0.dbRestore pre dl
+
+/-- does this dynamic operation contain a timestep that reaches folder `G` (a plain timestep or a `tickDb`; node ON after its power
+phase; folder not deleted)? -/
+def dFolderTicking (d : DNode) (op : DOp) (G : Folder) : Bool :=
+  match op.swBase with
+  | some b => folderTicking d.n b G
+  | none => false
+
+/-- number of timesteps of a dynamic trace that reach the `j`-th folder -/
+def dEffFolderTicks (d : DNode) (j : Nat) : List DOp → Nat
+  | [] => 0
+  | op :: ops =>
+    (match d.n.folders[j]? with
+     | some G => if dFolderTicking d op G then 1 else 0
+     | none => 0) + dEffFolderTicks (d.apply op) j ops
+
+theorem Folder.tick_name (G : Folder) : G.tick.name = G.name := by
+  unfold Folder.tick; exact (Folder.restoreTick_rest _).1.trans (Folder.scanTick_rest _).1
+
+theorem Folder.tick_scanCd (G : Folder) (h : 1 ≤ G.scanCd) : G.tick.scanCd = G.scanCd - 1 := by
+  unfold Folder.tick
+  rw [(Folder.restoreTick_rest _).2.2.1, Folder.scanTick_scanCd, if_pos (by omega)]
+
+theorem Folder.tick_restoreCd (G : Folder) (h : 1 ≤ G.restoreCd) : G.tick.restoreCd = G.restoreCd - 1 := by
+  unfold Folder.tick
+  rw [Folder.restoreTick_restoreCd, (Folder.scanTick_rest _).2.2.1, if_pos (by omega)]
+
+/-- **C14 dyn (one step, folder countdowns, by position).** While a countdown `cd` (scan or restore) of the `j`-th folder runs, ANY
+dynamic operation leaves a folder of the same name at position `j`, whose countdown went down by one if the operation contains a
+timestep that reaches the folder (plain, or `tickDb` with the database restore between software and folder ticks) and is unchanged
+otherwise. -/
+theorem dyn_folder_cd_step (cd : Folder → Int)
+    (hstep : ∀ n op G, 1 ≤ cd G → cd (folderEff n op G) = if folderTicking n op G then cd G - 1 else cd G)
+    (hsame : ∀ G' G : Folder, G'.CdSame G → cd G' = cd G)
+    (htick : ∀ G : Folder, 1 ≤ cd G → cd G.tick = cd G - 1)
+    (d : DNode) (op : DOp) (j : Nat) (G : Folder) (hG : d.n.folders[j]? = some G) (h1 : 1 ≤ cd G) :
+    ∃ G', (d.apply op).n.folders[j]? = some G' ∧ G'.name = G.name ∧
+      cd G' = if dFolderTicking d op G then cd G - 1 else cd G := by
+  have hbase : ∀ b : Op, ∃ G', (d.n.apply b).folders[j]? = some G' ∧ G'.name = G.name ∧
+      cd G' = if folderTicking d.n b G then cd G - 1 else cd G := fun b =>
+    ⟨folderEff d.n b G, by rw [apply_folders, List.getElem?_map, hG]; rfl, folderEff_name _ _ _, hstep _ _ _ h1⟩
+  cases hb : op.swBase with
+  | none =>
+    obtain ⟨G', g1, g2⟩ := C14_dyn_struct_pos d op hb j G hG
+    refine ⟨G', g1, g2.1, ?_⟩
+    unfold dFolderTicking; rw [hb]
+    simp only [Bool.false_eq_true, if_false]
+    exact hsame _ _ g2
+  | some b =>
+    have hdt : dFolderTicking d op G = folderTicking d.n b G := by unfold dFolderTicking; rw [hb]
+    rw [hdt]
+    cases op <;> simp only [DOp.swBase, reduceCtorEq, Option.some.injEq] at hb
+    case base b' => subst hb; exact hbase b'
+    case tickDb pre dl =>
+      subst hb
+      by_cases hon : d.n.powerPhase.power = .on
+      · cases hfix : d.n.powerPhase.scanPhase.redPhase.dbFixCompletes with
+        | false =>
+          rw [C14_tickdb_eq_tick d pre dl (Or.inl hfix)]
+          exact hbase .tick
+        | true =>
+          rw [(C14_tickdb_phases d pre dl hon hfix).1]
+          have hp1 : PosOk d.n (d.n.powerPhase.scanPhase.redPhase.mapSws Sw.tick) := by
+            apply ((PosOk.refl d.n).mapFolders (fun G => if d.n.powerPhase.scanCd = 1 then G.instantScan else G) ?_).of_folders_eq
+            · rw [mapSws_folders, redPhase_folders, scanPhase_folders, powerPhase_folders]; rfl
+            · intro G0
+              split
+              · exact ⟨Folder.instantScan_name _, Folder.instantScan_deleted _, Folder.instantScan_scanCd _,
+                  Folder.instantScan_restoreCd _⟩
+              · exact ⟨rfl, rfl, rfl, rfl⟩
+          have hp2 := PosOk.dbRestore (d := { d with n := d.n.powerPhase.scanPhase.redPhase.mapSws Sw.tick }) hp1 pre dl
+          obtain ⟨G2, g1, g2⟩ := hp2 j G hG
+          have hcd2 : cd G2 = cd G := hsame _ _ g2
+          refine ⟨if G2.deleted then G2 else G2.tick, by rw [mapFolders_folders, List.getElem?_map, g1]; rfl, ?_, ?_⟩
+          · split
+            · exact g2.1
+            · exact (Folder.tick_name G2).trans g2.1
+          · by_cases hd : G.deleted = true
+            · have hd2 : G2.deleted = true := g2.2.1.trans hd
+              simp [folderTicking, hon, hd, hd2, hcd2]
+            · have hd' : G.deleted = false := by simpa using hd
+              have hd2 : G2.deleted = false := g2.2.1.trans hd'
+              simp only [folderTicking, hon, hd', hd2, decide_true, Bool.true_and, Bool.not_false, if_true,
+                Bool.false_eq_true, if_false]
+              rw [htick G2 (by omega), hcd2]
+      · have e : (d.apply (.tickDb pre dl)).n = d.n.apply .tick := by
+          simp only [DNode.apply, DNode.tickDb, Node.apply, Node.tick, hon, if_false]
+        rw [e]
+        exact hbase .tick
+
+/-- generic countdown argument over dynamic traces, shared by folder scan and folder restore -/
+theorem dyn_folder_cd_not_early (cd : Folder → Int)
+    (hstep : ∀ n op G, 1 ≤ cd G → cd (folderEff n op G) = if folderTicking n op G then cd G - 1 else cd G)
+    (hsame : ∀ G' G : Folder, G'.CdSame G → cd G' = cd G)
+    (htick : ∀ G : Folder, 1 ≤ cd G → cd G.tick = cd G - 1)
+    (ops : List DOp) : ∀ (d : DNode) (j : Nat) (G : Folder) (c : Int),
+    d.n.folders[j]? = some G → cd G = c → (dEffFolderTicks d j ops : Int) < c →
+    ∃ G', (d.run ops).n.folders[j]? = some G' ∧ G'.name = G.name ∧ cd G' = c - dEffFolderTicks d j ops := by
+  induction ops with
+  | nil => intro d j G c hG hc _; exact ⟨G, hG, rfl, by simpa [dEffFolderTicks] using hc⟩
+  | cons op ops ih =>
+    intro d j G c hG hc hk
+    simp only [dEffFolderTicks, hG] at hk ⊢
+    simp only [DNode.run]
+    have hc1 : 1 ≤ cd G := by
+      have : (0 : Int) ≤ (dEffFolderTicks (d.apply op) j ops : Int) := Int.natCast_nonneg _
+      split at hk <;> omega
+    obtain ⟨G1, hG1, hn1, hs⟩ := dyn_folder_cd_step cd hstep hsame htick d op j G hG hc1
+    by_cases ht : dFolderTicking d op G = true
+    · simp only [ht, if_true] at hk hs ⊢
+      obtain ⟨G', h1, h2, h3⟩ := ih (d.apply op) j G1 (c - 1) hG1 (by rw [hs, hc]) (by omega)
+      refine ⟨G', h1, h2.trans hn1, ?_⟩
+      rw [h3]; omega
+    · have ht' : dFolderTicking d op G = false := by simpa using ht
+      simp only [ht', Bool.false_eq_true, if_false, Nat.zero_add] at hk hs ⊢
+      obtain ⟨G', h1, h2, h3⟩ := ih (d.apply op) j G1 c hG1 (by rw [hs, hc]) hk
+      exact ⟨G', h1, h2.trans hn1, h3⟩
+
+/-- **C14 dyn folder scan timing, part 1 (not early), every dynamic trace, by position.** With `c` on the scan countdown of the
+`j`-th folder, for ANY dynamic trace (second scan requests, deletion / restore of the folder, power loss, installs, uninstalls,
+folder / file creation, copies, database restores, `tickDb`): while fewer than `c` timesteps have reached the folder, the countdown
+is `c` minus that number. -/
+theorem C14_dyn_folder_scan_not_early (ops : List DOp) (d : DNode) (j : Nat) (G : Folder) (c : Int)
+    (hG : d.n.folders[j]? = some G) (hc : G.scanCd = c) (hk : (dEffFolderTicks d j ops : Int) < c) :
+    ∃ G', (d.run ops).n.folders[j]? = some G' ∧ G'.name = G.name ∧ G'.scanCd = c - dEffFolderTicks d j ops :=
+  dyn_folder_cd_not_early (·.scanCd) folderEff_scanCd_running (fun _ _ h => h.2.2.1) Folder.tick_scanCd ops d j G c hG hc hk
+
+/-- **C14 dyn folder restore timing, part 1 (not early), every dynamic trace, by position.** -/
+theorem C14_dyn_folder_restore_not_early (ops : List DOp) (d : DNode) (j : Nat) (G : Folder) (c : Int)
+    (hG : d.n.folders[j]? = some G) (hc : G.restoreCd = c) (hk : (dEffFolderTicks d j ops : Int) < c) :
+    ∃ G', (d.run ops).n.folders[j]? = some G' ∧ G'.name = G.name ∧ G'.restoreCd = c - dEffFolderTicks d j ops :=
+  dyn_folder_cd_not_early (·.restoreCd) folderEff_restoreCd_running (fun _ _ h => h.2.2.2) Folder.tick_restoreCd ops d j G c hG hc hk
+
+theorem dFolderTicking_of_tick (d : DNode) (tk : DOp) (G : Folder) (htk : tk.swBase = some .tick) :
+    dFolderTicking d tk G = folderTicking d.n .tick G := by unfold dFolderTicking; rw [htk]
+
+/-- **C14 dyn folder scan timing, part 2 (on time).** The `c`-th timestep that reaches the folder completes the scan: for EVERY
+timestep operation `tk` (plain or `tickDb`) the countdown returns to 0; and for the plain timestep the base statement holds in full
+(the folder shows the worst health of its live files, every live file shows its actual health). (With `tickDb` the database restore
+may replace a file of this very folder between the software ticks and the folder tick, so what is scanned is the folder after that
+replacement.) -/
+theorem C14_dyn_folder_scan_completes_on_time (ops : List DOp) (d : DNode) (j : Nat) (G : Folder) (c : Int)
+    (hG : d.n.folders[j]? = some G) (hc : G.scanCd = c) (hk : (dEffFolderTicks d j ops : Int) + 1 = c) :
+    ∃ G', (d.run ops).n.folders[j]? = some G' ∧ G'.scanCd = 1 ∧
+      (folderTicking (d.run ops).n .tick G' = true →
+        (∀ tk : DOp, tk.swBase = some .tick →
+          ∃ G'', ((d.run ops).apply tk).n.folders[j]? = some G'' ∧ G''.name = G.name ∧ G''.scanCd = 0) ∧
+        ∃ G'', ((d.run ops).apply (.base .tick)).n.folders[j]? = some G'' ∧ G''.name = G.name ∧ G''.scanCd = 0 ∧
+          G''.visible = worstLive G'.files ∧
+          G''.files.map (·.visible) = G'.files.map (fun f => if f.deleted then f.visible else f.actual)) := by
+  obtain ⟨G', h1, h2, h3⟩ := C14_dyn_folder_scan_not_early ops d j G c hG hc (by omega)
+  have hcd : G'.scanCd = 1 := by rw [h3]; omega
+  refine ⟨G', h1, hcd, fun ht => ⟨fun tk htk => ?_, ?_⟩⟩
+  · obtain ⟨G'', a, b, e⟩ := dyn_folder_cd_step (·.scanCd) folderEff_scanCd_running (fun _ _ h => h.2.2.1) Folder.tick_scanCd
+      (d.run ops) tk j G' h1 (show (1 : Int) ≤ G'.scanCd by omega)
+    rw [dFolderTicking_of_tick _ _ _ htk, ht, if_pos rfl] at e
+    exact ⟨G'', a, b.trans h2, by have e' : G''.scanCd = G'.scanCd - 1 := e; omega⟩
+  · obtain ⟨G0, g1, _, g3⟩ := C14_folder_scan_completes_on_time [] (d.run ops).n j G' 1 h1 hcd (by simp [effFolderTicks])
+    simp only [Node.run] at g1 g3
+    have e0 : G0 = G' := Option.some.inj (g1.symm.trans h1)
+    subst e0
+    obtain ⟨G'', a, b, e, f, g⟩ := g3 ht
+    exact ⟨G'', a, b.trans h2, e, f, g⟩
+
+/-- **C14 dyn folder restore timing, part 2 (on time).** The `c`-th timestep that reaches the folder completes the restore: for
+EVERY timestep operation `tk` (plain or `tickDb`) the countdown returns to 0; for the plain timestep the base statement holds in
+full (files live again, CORRUPT live files GOOD, folder no longer CORRUPT / RESTORING). -/
+theorem C14_dyn_folder_restore_completes_on_time (ops : List DOp) (d : DNode) (j : Nat) (G : Folder) (c : Int)
+    (hG : d.n.folders[j]? = some G) (hc : G.restoreCd = c) (hk : (dEffFolderTicks d j ops : Int) + 1 = c) :
+    ∃ G', (d.run ops).n.folders[j]? = some G' ∧ G'.restoreCd = 1 ∧
+      (folderTicking (d.run ops).n .tick G' = true →
+        (∀ tk : DOp, tk.swBase = some .tick →
+          ∃ G'', ((d.run ops).apply tk).n.folders[j]? = some G'' ∧ G''.name = G.name ∧ G''.restoreCd = 0) ∧
+        ∃ G'', ((d.run ops).apply (.base .tick)).n.folders[j]? = some G'' ∧ G''.name = G.name ∧ G''.restoreCd = 0 ∧
+          G''.actual ≠ .corrupt ∧ G''.actual ≠ .restoring ∧
+          G''.files.map (fun f => (f.deleted, f.actual)) =
+            G'.files.map (fun f => (f.deleted && (hasLive f.name G'.files || !firstDeleted G'.files f),
+              if (f.deleted = false ∨ File.twiceRestored G'.files f = true) ∧ f.actual = .corrupt then FsH.good
+              else f.actual))) := by
+  obtain ⟨G', h1, h2, h3⟩ := C14_dyn_folder_restore_not_early ops d j G c hG hc (by omega)
+  have hcd : G'.restoreCd = 1 := by rw [h3]; omega
+  refine ⟨G', h1, hcd, fun ht => ⟨fun tk htk => ?_, ?_⟩⟩
+  · obtain ⟨G'', a, b, e⟩ := dyn_folder_cd_step (·.restoreCd) folderEff_restoreCd_running (fun _ _ h => h.2.2.2)
+      Folder.tick_restoreCd (d.run ops) tk j G' h1 (show (1 : Int) ≤ G'.restoreCd by omega)
+    rw [dFolderTicking_of_tick _ _ _ htk, ht, if_pos rfl] at e
+    exact ⟨G'', a, b.trans h2, by have e' : G''.restoreCd = G'.restoreCd - 1 := e; omega⟩
+  · obtain ⟨G0, g1, _, g3⟩ := C14_folder_restore_completes_on_time [] (d.run ops).n j G' 1 h1 hcd (by simp [effFolderTicks])
+    simp only [Node.run] at g1 g3
+    have e0 : G0 = G' := Option.some.inj (g1.symm.trans h1)
+    subst e0
+    obtain ⟨G'', a, b, e, f, g, k⟩ := g3 ht
+    exact ⟨G'', a, b.trans h2, e, f, g, k⟩
+
+/-- **C14 dyn folder scan timing (exact), by position.** After a `scan` request on an idle live folder (the `j`-th) of a powered-on
+node, for EVERY dynamic continuation (nothing is excluded: a second scan request is ignored, deleting / restoring the folder or power
+loss only pause the countdown — such timesteps do not count as reaching it —, and installs, uninstalls, folder / file creation,
+copies, database restores, `tickDb` keep position and countdown): the countdown is `max(scan_duration, 1)` minus the number of
+timesteps that reached the folder while that number is smaller, and the `max(scan_duration, 1)`-th such timestep completes the scan
+(countdown 0 for a plain timestep or a `tickDb`; the full base statement for the plain one). BY POSITION: positions of folders are
+stable under all dynamic operations (folders are only appended), so no by-name form is needed. -/
+theorem C14_dyn_folder_scan_exact (d : DNode) (j : Nat) (G : Folder) (ops : List DOp)
+    (hG : d.n.folders[j]? = some G) (hon : d.n.power = .on) (hl : G.deleted = false) (hidle : G.scanCd ≤ 0) :
+    let d1 := d.apply (.base (.folder G.name .scan))
+    ((dEffFolderTicks d1 j ops : Int) < max G.scanDur 1 →
+      ∃ G', (d1.run ops).n.folders[j]? = some G' ∧ G'.name = G.name ∧
+        G'.scanCd = max G.scanDur 1 - dEffFolderTicks d1 j ops) ∧
+    ((dEffFolderTicks d1 j ops : Int) + 1 = max G.scanDur 1 →
+      ∃ G', (d1.run ops).n.folders[j]? = some G' ∧ G'.scanCd = 1 ∧
+        (folderTicking (d1.run ops).n .tick G' = true →
+          (∀ tk : DOp, tk.swBase = some .tick →
+            ∃ G'', ((d1.run ops).apply tk).n.folders[j]? = some G'' ∧ G''.name = G.name ∧ G''.scanCd = 0) ∧
+          ∃ G'', ((d1.run ops).apply (.base .tick)).n.folders[j]? = some G'' ∧ G''.name = G.name ∧ G''.scanCd = 0 ∧
+            G''.visible = worstLive G'.files ∧
+            G''.files.map (·.visible) = G'.files.map (fun f => if f.deleted then f.visible else f.actual))) := by
+  intro d1
+  have h0 : d1.n.folders[j]? = some (folderEff d.n (.folder G.name .scan) G) := by
+    show (d.n.apply (.folder G.name .scan)).folders[j]? = _
+    rw [apply_folders, List.getElem?_map, hG]; rfl
+  have hcd : (folderEff d.n (.folder G.name .scan) G).scanCd = max G.scanDur 1 := by
+    rw [C14_folder_scan_request]; simp [hon, hl, hidle]
+  have hnm := folderEff_name d.n (.folder G.name .scan) G
+  refine ⟨fun hlt => ?_, fun heq => ?_⟩
+  · obtain ⟨G', a, b, c⟩ := C14_dyn_folder_scan_not_early ops d1 j _ _ h0 hcd hlt
+    exact ⟨G', a, b.trans hnm, c⟩
+  · obtain ⟨G', a, b, c⟩ := C14_dyn_folder_scan_completes_on_time ops d1 j _ _ h0 hcd heq
+    refine ⟨G', a, b, fun ht => ?_⟩
+    obtain ⟨c1, G'', e1, e2, e3⟩ := c ht
+    refine ⟨fun tk htk => ?_, G'', e1, e2.trans hnm, e3⟩
+    obtain ⟨G3, f1, f2, f3⟩ := c1 tk htk
+    exact ⟨G3, f1, f2.trans hnm, f3⟩
+
+/-- **C14 dyn folder restore timing (exact), by position.** After a `restore` request that reaches the `j`-th folder while no
+restore is running (folder route on a live folder; or file-system route `restore folder`, which reaches the live folder of that name,
+else the first deleted one in deletion order) on a powered-on node, for EVERY dynamic continuation: the restore countdown is
+`max(restore_duration, 1)` minus the number of timesteps that reached the folder while that number is smaller (not early), and the
+`max(restore_duration, 1)`-th such timestep completes the restore (on time: countdown 0 for a plain timestep or a `tickDb`; the
+full base statement for the plain one). BY POSITION (stable, see above). -/
+theorem C14_dyn_folder_restore_exact (d : DNode) (j : Nat) (G : Folder) (ops : List DOp) (rq : Op)
+    (hG : d.n.folders[j]? = some G) (hon : d.n.power = .on) (hidle : G.restoreCd ≤ 0)
+    (hrq : (rq = .folder G.name .restore ∧ G.deleted = false) ∨
+      (rq = .fsRestoreFolder G.name ∧
+        (G.deleted = false ∨ (hasLiveFolder G.name d.n.folders = false ∧ firstDeletedFolder d.n.folders G = true)))) :
+    let d1 := d.apply (.base rq)
+    ((dEffFolderTicks d1 j ops : Int) < max G.restoreDur 1 →
+      ∃ G', (d1.run ops).n.folders[j]? = some G' ∧ G'.name = G.name ∧
+        G'.restoreCd = max G.restoreDur 1 - dEffFolderTicks d1 j ops) ∧
+    ((dEffFolderTicks d1 j ops : Int) + 1 = max G.restoreDur 1 →
+      ∃ G', (d1.run ops).n.folders[j]? = some G' ∧ G'.restoreCd = 1 ∧
+        (folderTicking (d1.run ops).n .tick G' = true →
+          (∀ tk : DOp, tk.swBase = some .tick →
+            ∃ G'', ((d1.run ops).apply tk).n.folders[j]? = some G'' ∧ G''.name = G.name ∧ G''.restoreCd = 0) ∧
+          ∃ G'', ((d1.run ops).apply (.base .tick)).n.folders[j]? = some G'' ∧ G''.name = G.name ∧ G''.restoreCd = 0 ∧
+            G''.actual ≠ .corrupt ∧ G''.actual ≠ .restoring ∧
+            G''.files.map (fun f => (f.deleted, f.actual)) =
+              G'.files.map (fun f => (f.deleted && (hasLive f.name G'.files || !firstDeleted G'.files f),
+                if (f.deleted = false ∨ File.twiceRestored G'.files f = true) ∧ f.actual = .corrupt then FsH.good
+                else f.actual)))) := by
+  intro d1
+  have h0 : d1.n.folders[j]? = some (folderEff d.n rq G) := by
+    show (d.n.apply rq).folders[j]? = _
+    rw [apply_folders, List.getElem?_map, hG]; rfl
+  have hcd : (folderEff d.n rq G).restoreCd = max G.restoreDur 1 := by
+    have hr := C14_folder_restore_request d.n G.name G hon rfl
+    rcases hrq with ⟨e, hl⟩ | ⟨e, hreach⟩
+    · rw [e, hr.2 hl, if_pos hidle]
+    · rw [e, hr.1 hreach, if_pos hidle]
+  have hnm := folderEff_name d.n rq G
+  refine ⟨fun hlt => ?_, fun heq => ?_⟩
+  · obtain ⟨G', a, b, c⟩ := C14_dyn_folder_restore_not_early ops d1 j _ _ h0 hcd hlt
+    exact ⟨G', a, b.trans hnm, c⟩
+  · obtain ⟨G', a, b, c⟩ := C14_dyn_folder_restore_completes_on_time ops d1 j _ _ h0 hcd heq
+    refine ⟨G', a, b, fun ht => ?_⟩
+    obtain ⟨c1, G'', e1, e2, e3⟩ := c ht
+    refine ⟨fun tk htk => ?_, G'', e1, e2.trans hnm, e3⟩
+    obtain ⟨G3, f1, f2, f3⟩ := c1 tk htk
+    exact ⟨G3, f1, f2.trans hnm, f3⟩
 
 end Primaite.Health
